@@ -13,7 +13,7 @@ RULE = ("every sequence of length N over N symbols (every multiplicity pattern i
 ASSUMPTIONS = ["int/int true division is correctly rounded, so equality with float(Fraction) is exact",
                "table cells never contain the join characters '.' or '_' (outside the property); missing is spelled either '' or None/NaN, one spelling per table",
                "a 2-tuple is the legacy (alpha, beta) form and is not used as a plain sample container"]
-REQUIRED_CLASSES = {"all": ["reordering", "relabelling", "table-missing-cell", "table-collision-without-separator", "two-sample", "legacy-tuple", "two-table", "negative-int-cells"]}
+REQUIRED_CLASSES = {"all": ["reordering", "relabelling", "table-missing-cell", "table-collision-without-separator", "two-sample", "legacy-tuple", "two-table", "negative-int-cells", "tuple-or-mixed-type-elements"]}
 MIN_OUTCOMES = 8
 
 LABELS = {
@@ -108,6 +108,29 @@ def check_case(case, acc):
                 acc.fail("pc_n/container-or-zero-entries", ("pc_n", tuple(int(c) for c in counts_variant), type(counts_variant).__name__), exp, r)
             else:
                 acc.ok()
+        # hashable elements of other kinds: tuples (e.g. (V gene, CDR3) clonotypes) in a Series / Index / object array, and equal
+        # numbers of different type (3 == 3.0 == Fraction(3)) side by side in one object container
+        if N <= 5:
+            from fractions import Fraction as F_
+            tl = [("v%d" % i, "cdr%d" % (i % 2)) for i in t]
+            arr = np.empty(N, dtype=object)
+            arr[:] = tl
+            mixed = [[3 + i, float(3 + i), F_(3 + i)][(pos + i) % 3] for pos, i in enumerate(t)]
+            marr = np.empty(N, dtype=object)
+            marr[:] = mixed
+            for boxed, tag in ((pd.Series(tl), "series-of-tuples"), (pd.Index(tl, tupleize_cols=False), "index-of-tuples"), (arr, "object-array-of-tuples"),
+                               (pd.Series(mixed, dtype=object), "equal-numbers-of-different-type/series"), (marr, "equal-numbers-of-different-type/object-array")):
+                acc.cls("tuple-or-mixed-type-elements")
+                r = acc.call(pyrepseq.pc, boxed)
+                if not _exact(r, exp):
+                    acc.fail("pc/one-sample/%s" % tag.split("/")[0], ("seq", t), exp, r, note=tag)
+                else:
+                    acc.ok()
+                r = acc.call(pyrepseq.pc, boxed, boxed[::-1])
+                if not _exact(r, ref_pc2(t, t[::-1])):
+                    acc.fail("pc/two-sample/%s" % tag.split("/")[0], ("seq", t), ref_pc2(t, t[::-1]), r, note=tag)
+                else:
+                    acc.ok()
         # two-sample form with the two samples spelled differently (list vs object Series, ints vs equal floats)
         if N <= 5:
             lab = [LABELS["str"](i) for i in t]
